@@ -99,18 +99,35 @@ pub fn run(tier: Tier, args: &[String]) -> i32 {
     // then the requested depth with at most `max_out` requests outstanding; which of the two was
     // completed is reported
     // (depth, bound on outstanding requests, undecodable-answer step in the alphabet)
-    let plan: Vec<(usize, usize, bool)> = match tier {
-        Tier::Quick => vec![(depth, max_out, true)],
+    // the reduced case goes deeper with the menu restricted to {Single, Two, Sub}: the whole
+    // life of a subscription (items, consumer ends by itself or is aborted, late item answered
+    // FinishedMany) followed by requests that reuse its id and their answers
+    let deep_menu = vec![0usize, 1, 2];
+    let deep_depth = mc_kit::arg_value(args, "--deep-depth")
+        .and_then(|s| s.parse().ok())
+        .unwrap_or(tier.pick(6, 8));
+    let plan_full: Vec<(usize, usize, bool, Option<Vec<usize>>)> = match tier {
+        Tier::Quick => vec![
+            (depth, max_out, true, None),
+            (deep_depth, usize::MAX, true, Some(deep_menu)),
+        ],
         Tier::Thorough => vec![
-            (depth.saturating_sub(1).max(1), usize::MAX, true),
-            (depth, max_out, false),
+            (depth.saturating_sub(1).max(1), usize::MAX, true, None),
+            (deep_depth, usize::MAX, true, Some(deep_menu)),
+            (depth, max_out, false, None),
         ],
     };
+    let plan: Vec<(usize, usize, bool)> =
+        plan_full.iter().map(|(d, mo, g, _)| (*d, *mo, *g)).collect();
     let deadline_all = Deadline::new(limit);
-    for (d, mo, garbage) in plan.iter().copied() {
+    let mut all_completed = true;
+    let mut reduced_nodes = 0u64;
+    for (d, mo, garbage, menu) in plan_full.iter().cloned() {
         if deadline_all.expired() {
+            all_completed = false;
             break;
         }
+        let reduced = menu.is_some();
         let cfg = Cfg {
             kinds: LANES.to_vec(),
             depth: d,
@@ -121,14 +138,22 @@ pub fn run(tier: Tier, args: &[String]) -> i32 {
             min_frontier: 64,
             record: false,
             garbage,
+            menu: menu.clone(),
         };
         let v = V { rep: &rep };
         let st = explore::run(&cfg, &v, 24);
+        all_completed &= !st.cut_by_deadline;
         runs.push(json!({"depth": d, "undecodable_answer_step": garbage,
+                          "menu": menu.as_ref().map(|m| m.iter().map(|i| crate::app::MENU_NAMES[*i]).collect::<Vec<_>>()),
                           "max_outstanding_bound": if mo == usize::MAX { json!("none") } else { json!(mo) },
                           "nodes": st.nodes, "completed": !st.cut_by_deadline,
                           "max_outstanding_seen": st.max_outstanding,
                           "wall_s_so_far": rep.elapsed()}));
+        if reduced {
+            // a sub-alphabet of the full tree: listed under `runs`, not added to the counts
+            reduced_nodes = st.nodes;
+            continue;
+        }
         if !st.cut_by_deadline {
             completed = Some((d, mo, garbage));
             total = st;
@@ -139,13 +164,15 @@ pub fn run(tier: Tier, args: &[String]) -> i32 {
     if total.nontrivial < 2 {
         mc_kit::machinery_error("C09: fewer than 2 non-trivial histories were explored");
     }
-    let exhaustive = completed == plan.last().copied();
+    let _ = &plan;
+    let exhaustive = all_completed;
     let (completed_depth, completed_max_out, _) = completed.unwrap_or((0, 0, false));
     let samples = total.samples.take().map(|s| s.into_value()).unwrap_or(json!([]));
     let coverage = json!({
         "states": total.nodes,
         "transitions": total.nodes.saturating_sub(1),
         "steps_executed_including_prefix_replays": total.steps_executed,
+        "reduced_menu_deep_run_nodes (also compared with the twin, not included in states)": reduced_nodes,
         "traces_validated_against_impl": total.nodes,
         "evaluations": total.nodes * 2,
         "evaluations_note": "every history-tree node: the step oracle evaluated for the bincode bridge and for the JSON bridge against the typed twin",
